@@ -39,9 +39,34 @@ func scC16Reverse(w *World, a Args, rng *rand.Rand) error {
 			}(c, tok)
 		}
 	}
+	if a.Bool("notifycb") && !http {
+		// notifications whose handlers call back into the client that sent them
+		for ci, c := range clients {
+			tok := 100*(ci+1) + 60
+			w.Plan(tok, &Plan{})
+			wg.Add(1)
+			go func(c *Client, tok int) { defer wg.Done(); c.Call(context.Background(), "callbacknotify", tok) }(c, tok)
+		}
+	}
 	done := make(chan struct{})
 	go func() { wg.Wait(); close(done) }()
 	waitCh(done, patience(4*time.Second))
+	if a.Bool("notifycb") && !http {
+		// the notification handlers report how their reverse calls went
+		dl := time.Now().Add(patience(3 * time.Second))
+		for time.Now().Before(dl) {
+			n := 0
+			for _, e := range w.Rec.Events() {
+				if e["ev"] == "RevNotifyResult" {
+					n++
+				}
+			}
+			if n >= len(clients) {
+				break
+			}
+			time.Sleep(5 * time.Millisecond)
+		}
+	}
 	if lose := a.Str("lose", ""); lose != "" && !http {
 		// the first client's connection goes away at a chosen point of a reverse exchange
 		victim := clients[0]
@@ -59,6 +84,20 @@ func scC16Reverse(w *World, a Args, rng *rand.Rand) error {
 			w.WaitRunning(tok, time.Second)
 			w.Rec.Emit("WireFault", "conn", 1, "fault", "kill/fin", "dir", "both", "frame", 0)
 			vpc.Kill("fin")
+		case "queued": // reverse calls queue up behind a large one the client is slow to read; then the connection is reset
+			vpc.Stall(S2C, true)
+			go func() {
+				ctx, cancel := context.WithTimeout(context.Background(), patience(4*time.Second))
+				defer cancel()
+				victim.Call(ctx, "callbackmany", tok, 12, 16<<20)
+			}()
+			w.WaitRunning(tok, time.Second)
+			time.Sleep(400 * time.Millisecond) // the large reverse request has been rendered and is stuck in the write by now
+			w.Release(tok)                     // the small reverse calls are issued
+			time.Sleep(100 * time.Millisecond)
+			w.Rec.Emit("WireFault", "conn", 1, "fault", "kill/rst", "dir", "both", "frame", 0)
+			vpc.Kill("rst")
+			time.Sleep(100 * time.Millisecond)
 		case "request": // the reverse request frame (server to client) is cut
 			vpc.AddRule(&Rule{Dir: S2C, Frame: 0, Pos: a.Str("pos", "cut-payload")})
 			go victim.CallT("callback", tok, patience(3*time.Second))
